@@ -1,4 +1,4 @@
-"""Unit `typedef_methods` (C04, C12): member functions declared through a typedef of a function type (F30, F40, F41)."""
+"""Unit `typedef_methods` (C04, C12): member functions declared through a typedef of a function type (F30, F40-F43)."""
 import os
 ENV = os.path.join(os.path.dirname(os.path.dirname(os.path.abspath(__file__))), "env")
 CG = "bindgen/codegen/mod.rs"
@@ -7,7 +7,7 @@ PANIC = (r're:panic!\(\s*"[^"]*"\s*\)', "vstd::pervasive::unreached()", 0, "R15 
 UNIT = {
     "name": "typedef_methods",
     "env": [os.path.join(ENV, "typedef_methods_env.rs")],
-    "declared_trusted": {r"external_body": 21},
+    "declared_trusted": {r"external_body": 26},
     "items": [
         {"kind": "enum", "file": "bindgen/ir/comp.rs", "name": "MethodKind", "prefix": "#[derive(Copy, Clone, PartialEq, Eq, Structural)]"},
         {"kind": "enum", "file": "bindgen/ir/function.rs", "name": "FunctionKind", "prefix": "#[derive(Copy, Clone, PartialEq, Eq, Structural)]"},
@@ -40,6 +40,26 @@ UNIT = {
                      "prefix": "{", "suffix": "Some(signature) }"},
          "subst": [PANIC],
          "requires": ["m.s_virtual()", "!m.s_virtual() || method_sig_type(m, ctx).s_kind() is Function"],
+         "ensures": ["r.is_some()"]},
+        # C12: the block-pointer arm of <Type as CodeGenerator>::codegen under --generate-block (statements R18, `until`): the pointee
+        # is looked up behind references AND typedefs, where (IR invariant, the arm's own panic!) it is a function type - so
+        # `typedef fn_t ^blk_t;` over a function typedef does not abort generation (found and repaired F42)
+        {"kind": "fn", "file": CG, "name": "block_pointee_type", "impl": r"^impl CodeGenerator for Type$", "ret": "r",
+         "closure": {"enclosing": "codegen", "anchor_re": r"(?m)^\s*let inner_item\s*=", "nth": 0, "stmt": "until", "until": "let rust_name = ctx.rust_ident(name);",
+                     "signature": "fn block_pointee_type(inner: TypeId, item: &Item, ctx: &BindgenContext) -> (r: Tok)",
+                     "prefix": "{", "suffix": "inner_rust_type }"},
+         "subst": [PANIC],
+         "requires": ["ctx.s_item(s_resolved(ctx, inner.0, true, true)).s_kind().s_type().s_kind() is Function"],
+         "ensures": []},
+        # C12: the C serializer of --wrap-static-fns (codegen/serialize.rs, let-else statement R18): the wrapper's signature is looked
+        # up behind typedefs, where (IR invariant) it is a function type - `static fn_t f;` over a function typedef does not hit
+        # unreachable!() (found and repaired F43)
+        {"kind": "fn", "file": "bindgen/codegen/serialize.rs", "name": "wrapper_signature", "impl": r"^impl<'a> CSerialize<'a> for Function$", "ret": "r",
+         "closure": {"enclosing": "serialize", "anchor_re": r"(?m)^\s*let TypeKind::Function\(signature\)\s*=", "nth": 0, "stmt": "let",
+                     "signature": "fn wrapper_signature<'a>(self_: &Function, ctx: &'a BindgenContext) -> (r: Option<&'a FunctionSig>)",
+                     "prefix": "{", "suffix": "; Some(signature) }"},
+         "subst": [("unreachable!()", "vstd::pervasive::unreached()", 0, "R15 unreachable! (if present)"), PANIC, (r"re:(?<![\w.])self(?![\w(:])", "self_", 0, "R18 captured self")],
+         "requires": ["sig_type(self_, ctx).s_canonical(ctx).s_kind() is Function"],
          "ensures": ["r.is_some()"]},
     ],
 }
